@@ -149,8 +149,63 @@ def detect(ids):
     print('%d of %d seeded defects caught by the check of their own property' % (caught, len(out)))
 
 
+def neutral_one(src):
+    from sa.model import Model, AnalysisError
+    from sa.main import run_property
+    from sa.props import PROPS
+    from sa import rdefs
+    tmp = tempfile.mkdtemp(prefix='verif-neu-')
+    try:
+        shutil.copytree('/repo/yalafi', os.path.join(tmp, 'yalafi'),
+                        ignore=shutil.ignore_patterns('__pycache__'))
+        shutil.copy('/repo/list-of-macros.md', tmp)
+        rc, out = sh('patch -p1 -s < %s' % os.path.join(src, 'patch.diff'), cwd=tmp)
+        if rc:
+            return src, None, 'apply failed: ' + out[-200:]
+        res = {}
+        try:
+            model = Model(repo=tmp)
+        except AnalysisError as e:
+            return src, {'*': ['ANALYSIS-ERROR %s' % e]}, ''
+        for p in sorted(PROPS):
+            rdefs.reset_cache()
+            try:
+                viol, results = run_property(p, 'quick', 0, model=model, quiet=True, write=False)
+                if viol:
+                    res[p] = sorted({'%s: %s' % (f.rule, f.msg[:90]) for f in viol})
+            except AnalysisError as e:
+                res[p] = ['ANALYSIS-ERROR: %s' % str(e)[:120]]
+            except Exception as e:
+                res[p] = ['CRASH: %r' % e]
+        return src, res, ''
+    finally:
+        shutil.rmtree(tmp, ignore_errors=True)
+
+
+def neutral(srcs):
+    srcs = [s.rstrip('/') for s in srcs if os.path.exists(os.path.join(s, 'patch.diff'))]
+    with multiprocessing.Pool(12) as pool:
+        out = pool.map(neutral_one, srcs)
+    bad = 0
+    for src, res, msg in out:
+        name = '/'.join(src.split('/')[-2:])
+        if res is None:
+            print('%-8s ERROR %s' % (name, msg))
+        elif res:
+            bad += 1
+            print('%-8s ALARM' % name)
+            for p, lst in res.items():
+                for x in lst:
+                    print('      %s %s' % (p, x))
+        else:
+            print('%-8s silent' % name)
+    print('%d of %d behaviour-preserving refactorings raise an alarm' % (bad, len(out)))
+
+
 if __name__ == '__main__':
     if sys.argv[1] == 'confirm':
         confirm(sys.argv[2:])
     elif sys.argv[1] == 'detect':
         detect(sys.argv[2:])
+    elif sys.argv[1] == 'neutral':
+        neutral(sys.argv[2:])
